@@ -342,7 +342,7 @@ class Explorer:
         g = self.stats.setdefault("ghost", {"streams": 0, "prefix_hyps_met": 0, "prefix_holds": 0, "complete_hyps_met": 0, "complete_holds": 0,
                                             "monitor_fresh": 0, "contradictions": []})
         g["streams"] += 1
-        if kv["camfail"] == "0" and kv["misused"] == "0" and kv["clean"] == "1":
+        if kv["misused"] == "0" and kv["clean"] == "1":   # scripted camera failures included (the theorems no longer exclude them)
             g["prefix_hyps_met"] += 1
             if kv["inorder"] == "1" and int(kv["log"]) <= int(kv["ncommit"]):
                 g["prefix_holds"] += 1
